@@ -100,14 +100,14 @@ func (r *Run) labels() []string {
 
 // DFS is the stateless explorer.
 type DFS struct {
-	Bound    int           // max accumulated deviation cost; <0 = unbounded
-	Body     func(r *Run)  // one execution
-	Shard    int           // this worker's shard
-	NShards  int           // total shards (0/1 = no sharding)
-	Deadline time.Time     // zero = none
-	MaxExecs int64         // 0 = none
-	OnRun    func(r *Run)  // called after every execution
-	Confirm  int           // re-runs of a failing choice list before it is reported (default 5)
+	Bound    int          // max accumulated deviation cost; <0 = unbounded
+	Body     func(r *Run) // one execution
+	Shard    int          // this worker's shard
+	NShards  int          // total shards (0/1 = no sharding)
+	Deadline time.Time    // zero = none
+	MaxExecs int64        // 0 = none
+	OnRun    func(r *Run) // called after every execution
+	Confirm  int          // re-runs of a failing choice list before it is reported (default 5)
 
 	Execs     int64
 	MaxDepth  int
